@@ -39,15 +39,26 @@ TraceNext ==
      ELSE
         LET e == evs[l]
             c == Check(s, e)
+            s2 == Apply(s, e)
+            \* the contract's own state invariants: a recorded execution that drives the contract state out of
+            \* them (possible only for an implementation that misbehaves) is rejected like any other violation
+            inv == IF ~ViewWellFormed(s2) THEN "InvView"
+                   ELSE IF ~AtomicOutputs(s2) THEN "InvAtomic"
+                   ELSE IF ~ClaimsCoverLive(s2) THEN "InvClaims"
+                   ELSE IF ~CacheNeverInView(s2) THEN "InvCache" ELSE ""
         IN IF c # "" THEN
               /\ Verdict("rejected", c, Fails(s, e))
               /\ tid' = tid + 1 /\ l' = 1 /\ s' = InitState /\ kf' = {}
-           ELSE /\ tid' = tid /\ l' = l + 1 /\ s' = Apply(s, e)
+           ELSE IF inv # "" THEN
+              /\ Verdict("rejected", inv, {inv})
+              /\ tid' = tid + 1 /\ l' = 1 /\ s' = InitState /\ kf' = {}
+           ELSE /\ tid' = tid /\ l' = l + 1 /\ s' = s2
                 /\ kf' = IF KnownFinding(s, e) = "" THEN kf ELSE kf \cup {KnownFinding(s, e)}
 
 TraceSpec == TraceInit /\ [][TraceNext]_tvars
 
-(* contract invariants, evaluated at every step of every trace *)
+(* contract invariants (evaluated inside TraceNext for every step of every trace, so that a violation is a *)
+(* verdict for that trace instead of the end of the whole batch; FBRefMC checks them as TLC invariants)   *)
 InvView == ViewWellFormed(s)
 InvAtomic == AtomicOutputs(s)
 InvClaims == ClaimsCoverLive(s)
